@@ -15,7 +15,7 @@ NOTE_BASE = ("Sampling, not enumeration. Trusted: the harness (sim/src), tokio's
 
 CHECKS = {
  "C01": dict(ref="5/C01", tech="deterministic simulation (cluster world) + seeded fault/schedule search; global block-tree agreement monitor over all commit channels",
-   text="Exploration: every commit of every honest node in every run is checked against one global committed chain built from independently computed block digests and parent links; scenarios mix view changes, partitions, crashes, resets, slow nodes and (where enabled) Byzantine authorities within the f bound.",
+   text="Exploration: every commit of every honest node in every run is checked against one global committed chain built from independently computed block digests and parent links; scenarios mix view changes, partitions, crashes, resets, slow nodes and (where enabled) Byzantine authorities within the f bound; 30% contain a split brain (honest nodes cut into two arcs of the leader rotation for 6-16 timeouts, Byzantine members connected to both sides).",
    note="Byzantine behaviour is the strategy mix of the adversary module, not every behaviour."),
  "C02": dict(ref="5/C02", tech="deterministic simulation (cluster world) + seeded fault/schedule search; per-node commit-sequence monitor",
    text="Exploration: each node's commit channel is checked block by block (first block is a child of genesis, each next block's parent is the block delivered just before, genesis never delivered); the generator forces view-change chain shapes (slow leaders on seeded rounds, partial delivery) and the batch fails as 'not reached' unless commits across round gaps and multi-ancestor commits occurred.",
@@ -23,14 +23,14 @@ CHECKS = {
  "C03": dict(ref="5/C03", tech="deterministic simulation + seeded fault/schedule search; wire monitor on votes, own signatures inside emitted QCs, and timeouts, ordered per connection",
    text="Exploration: every vote an honest node puts on the wire (and every signature of its own inside QCs it emits) is checked: one block per round, rounds strictly increasing and never at or below an earlier timeout on the same link, voted block extends a QC of the previous round or is justified by a TC whose highest reported QC round does not exceed the block's QC.",
    note="Orders are compared only within one sender-destination link (FIFO by construction); votes a node casts as next leader are seen only through QCs it later emits."),
- "C05": dict(ref="5/C05", tech="deterministic simulation + seeded fault/schedule search; commit-justification monitor (certified consecutive 2-chain shown to the node, or ancestor of such a commit)",
-   text="Exploration: each commit must be justified by a valid QC (independently verified) for a child of round +1 that was delivered to the node, emitted by it, or assemblable from votes delivered to it; otherwise it must be an ancestor of a justified commit of the same node. Slow-leader faults produce gaps at both positions of the 2-chain.",
+ "C05": dict(ref="5/C05", tech="deterministic simulation + seeded fault/schedule search; commit-justification monitor judged at the moment of delivery (certified consecutive 2-chain already shown to the node, for the block or a descendant)",
+   text="Exploration: at the moment of each delivery the block, or a descendant of it, must have a child of round +1 certified by a valid QC (independently verified) that had already been delivered to the node, emitted by it, or was assemblable from votes delivered to it (cluster and puppet world, the latter with forged degenerate certificates). Slow-leader faults produce gaps at both positions of the 2-chain.",
    note="Uses delivered-by-then as the evidence set (a superset of processed-by-then), so the oracle is only ever more permissive than the statement."),
  "C06": dict(ref="5/C06", tech="deterministic simulation + seeded crash/delay search; bounded-liveness monitor after stabilisation",
    text="Exploration with bounded liveness: up to f (by stake) crashes at arbitrary instants, heavy-tail delays and stalls before a stabilisation instant, timely delivery afterwards; every live node's highest committed round must grow in every window of (2f+4) max-timeouts + sync_retry_delay + 7 s.",
    note="The bound is calibrated (worst observed gap stays below a third of the window on the unchanged tree). One structural known finding (unequal stakes, see known_findings.json) is reported as KNOWN-FINDING."),
  "C07": dict(ref="5/C07", tech="deterministic simulation + seeded isolation/heal search; catch-up monitor over commit sequences and sync traffic",
-   text="Exploration with bounded liveness: a seeded node is cut off for a seeded interval while the others commit (with or without view changes), then healed (optionally with a mute first sync target and clock jumps); by the deadline its committed round must reach what the others had one liveness window earlier, its sequence obeys the C02/C01 monitors, sync replies from helpers equal the originally proposed block, and every request left unanswered by a deaf peer is repeated for the same block to other peers within sync_retry_delay + 7 s.",
+   text="Exploration with bounded liveness: a seeded node is cut off for a seeded interval while the others commit (with or without view changes), then healed (optionally with a mute first sync target and clock jumps); by the deadline its committed round must reach what the others had one liveness window earlier, its sequence obeys the C02/C01 monitors, sync replies from helpers equal the originally proposed block, and every request left unanswered by a deaf peer is repeated for the same block to other peers within sync_retry_delay + 12 s. A quarter of the scenarios run in the puppet world with a starve episode: a certified parent is withheld while further valid blocks on top of it keep arriving every 400 ms, and the node must ask another peer within the retry period all the same. Variants crash the first proposer after the heal or another node near it.",
    note="Deadline includes the reliable sender's reconnection back-off (up to twice the isolation, capped at 62 s) and the deafness of a finitely deaf peer. One known finding (a peer deaf for ever) is reported as KNOWN-FINDING."),
  "C08": dict(ref="5/C08", tech="deterministic simulation + seeded fault/schedule search; store-write tap versus vote and commit instants",
    text="Exploration: at the instant a vote for a foreign block is written to the wire and at every commit, each payload digest must already be a key in that node's store (write observed through the store tap with an earlier sequence number).",
@@ -54,8 +54,8 @@ CHECKS = {
    text="Exploration: every QC and TC an honest node emits (in proposals, timeouts, TC broadcasts) is re-verified independently (distinct members, quorum stake, every signature valid for one (block, round) resp. (round, high-QC round)); no TC is sent twice to a peer.",
    note="The exactly-when half is decided in the puppet world."),
 
- "C04": dict(ref="5/C04", tech="deterministic simulation (puppet world: one real node, harness holds all other keys) + seeded search over 28 kinds of invalid variant; 'no effect' oracles on votes, store writes, round evidence and emitted certificates",
-   text="Exploration: invalid variants of proposals, votes, timeouts, QCs and TCs (flipped signature bits, altered signed fields with the signature kept, signatures transplanted between blocks and message kinds, repeated / non-member signers, one signer below quorum, certificates over another round or for future rounds) are delivered between valid traffic; the node must never vote for, store or commit a block of which it only saw an invalid variant, never act in a round that only an invalid certificate justifies, never emit a certificate containing an invalid vote/timeout, and must still vote for the next valid proposal after rejections.",
+ "C04": dict(ref="5/C04", tech="deterministic simulation (puppet world: one real node, harness holds all other keys) + seeded search over 33 kinds of invalid variant; 'no effect' oracles on votes, store writes, round evidence and emitted certificates",
+   text="Exploration: invalid variants of proposals, votes, timeouts, QCs and TCs (flipped signature bits, altered signed fields with the signature kept, signatures transplanted between blocks and message kinds, repeated / non-member signers, one signer below quorum, certificates over another round or for future rounds, superfluous invalid TCs on otherwise valid proposals, degenerate round-0 / zero-hash certificates) are delivered between valid traffic; the node must never vote for, store or commit a block of which it only saw an invalid variant, never act in a round that only an invalid certificate justifies, never emit a certificate containing an invalid vote/timeout, and must still vote for the next valid proposal after rejections.",
    note="The twin-run non-interference oracle of DESIGN.md was not built; 'behaviour unchanged' is judged through the no-effect oracles and the expected-vote model."),
  "C20": dict(ref="5/C20", tech="deterministic simulation (puppet world) + seeded single-field-variant and cross-kind splice injection judged by the node's reaction; store/wire round trip through the real sync path",
    text="Exploration: variants differing in one bound field (author, round, payload entry, parent, payload/parent boundary shift, swapped round/QC round) or carrying a signature of another kind (vote<->timeout<->block) re-use the original signature and must be rejected (no vote, no store); blocks fetched from the node's helper must be byte-identical to a block it was given under that digest; every frame the node writes must decode and its own signatures must verify under the independently computed digests.",
